@@ -311,12 +311,12 @@ def main(check, argv):
         samples=samples,
         simulated_runs_per_hour=int(len(cases) / max(wall, 1e-9) * 3600),
         seeds=len(cases),
+        simulated_executions=int(stats.get("simulated_executions", 0)) or None,
         simulated_time="tempest has no timers or deadlines; simulated time = logical seam events (see counters)",
         fault_and_seam_counters=stats,
         reach_probes=probes,
         distinct_cases=len(distinct),
         determinism_recheck=dict(cases=len(probe), mismatches=len(nondet)),
-        hooks_fired=extra.pop("hooks_fired", None),
         known_findings_hit=[dict(id=e["id"], cases=n) for eid, (e, n, c, v) in sorted(known_hits.items())],
         new_violations=new_reports,
         components=dict(real=["tempest (all modules)", "numpy", "scipy", "dill", "CPython io buffering", "pathlib", "tqdm"],
